@@ -105,11 +105,16 @@ def gen_case(rng, spec):
         rules.append([w, h, list(b)])
     terms = sorted(set(terms))
     rules = [[w / 2, h, b] for w, h, b in rules]  # keep the convergence bound after adding rules
-    R = rng.choice(["Q", "Float"])
-    an = GG.analyse({"S": g["S"], "V": g["V"], "rules": g["rules"]})
-    if {"eps_cycle"} & (set(GA.classify_wfsa(m)) | set(GA.classify_wfsa(m2))) or "nullable_cycle" in an["classes"] or "recursive" in an["classes"]:
-        R = "Float"  # the library truncates cyclic fixed points at 1e-12: exact rationals only where sums are finite
-    return {"m": m, "m2": m2, "kind": kind, "from_string": fs, "R": R,
+    # separate weight domains for the automaton part and the grammar part: exact rationals wherever the library's
+    # own computation is finite (it truncates cyclic fixed points at 1e-12)
+    R = rng.choice(["Q", "Q", "Float"])
+    if {"eps_cycle"} & (set(GA.classify_wfsa(m)) | set(GA.classify_wfsa(m2))):
+        R = "Float"
+    Rg = rng.choice(["Q", "Float"])
+    an = GG.analyse({"S": g["S"], "V": terms, "rules": rules})
+    if "nullable_cycle" in an["classes"] or "recursive" in an["classes"]:
+        Rg = "Float"
+    return {"m": m, "m2": m2, "kind": kind, "from_string": fs, "R": R, "Rg": Rg,
             "g": {"S": g["S"], "V": terms, "rules": rules}, "maxlen": 3 if spec.get("tier") == "quick" else 4}
 
 
@@ -301,6 +306,8 @@ def run_case(case, ctx):
         O.e  # noqa: B018
     except (cfgref.Singular, cfgref.NoConverge, cfgref.NonLinear):
         O = lib.oracle_for(g, "Float")
+    R = case.get("Rg", R)
+    exact = R == "Q"
     ok, cfg = ctx.call(APIS[2], case, lib.build_cfg, g, R)
     if ok:
         ok, BG = ctx.call(APIS[2], case, cfg.to_bytes)
